@@ -67,6 +67,13 @@ CFG = {
         "WaitCh(); judged after both returned: non-empty and nobody holding => channel readable) and pop-close-race "
         "for every condition-variable type (5 consumers entering Pop/PopAnyway at the instant of Close; violation only "
         "on the positive observation `Close has returned and every consumer not yet back is parked in cond.Wait`); "
+        "class backlog-<kind> for every condition-variable type: b ordinary adds with NO consumer, b in {0, 1, 7, 8, 15, 16, "
+        "17, 31, 32, 33, 63, 64, 65, 127, 128, 129}, then one last add of each kind in turn (add, prior, ...Anyway; MQ "
+        "also ctrl, priorctrl, ctrl-Anyway), then min(b+1, 6) consumers (now and then 40) arriving one after the other: "
+        "each returns at once with its own item; variant: up to 4 consumers parked first, the adds as one burst "
+        "(quick: every size x kind with one variant, thorough: both); runs of >= 4 accepted ordinary adds of "
+        "consecutive items are written run-length in the case term (CCondR / CAdds, expanded by `expand` before the "
+        "same cond_accept / cond_holds are applied); "
         "the schedule classes stop after 60 s (90 s in the violation search) and after two stuck schedules; every add on an unbounded list goes through its ...Anyway variant with probability "
         "1/4 (every other add in the stress class), MQ schedules contain TryClear; in every class about one item in eight is "
         "a boundary value of interface{} - the nil interface, a typed nil pointer, \"\", int(0), false, struct{}{} - "
